@@ -161,6 +161,6 @@ pub fn def() -> PropertyDef {
                for its uniquely tagged bytes (independent of the tables); non-trivial = >=2 samples per track and an equal cross-track \
                timestamp or a submission order different from timestamp order",
         assumptions: &["sample payloads carry a unique 16-byte tag, so a byte search locates them unambiguously (ambiguous cases are counted and skipped)"],
-        subs: vec![Box::new(PSub { name: "interleave", quick: 3000, thorough: 100_000, strat, eval })],
+        subs: vec![Box::new(PSub { name: "interleave", quick: 30000, thorough: 800000, strat, eval })],
     }
 }
